@@ -45,6 +45,10 @@ def build(m):
             return M.QRES(i, o, hidden=(4, 3))
         if kd == "deepritz":
             return M.DeepRitzNet(i, o, width=4, depth=2)
+        if kd == "deepritz2":       # narrow residual blocks: a block is easily inactive for a single row
+            return M.DeepRitzNet(i, o, width=2, depth=3)
+        if kd == "deepritz1":
+            return M.DeepRitzNet(i, o, width=1, depth=4)
         if kd == "norm":
             return M.NormalizationLayer(tp.domains.Parallelogram(i, [-2.0, -2.0], [2.0, -2.0], [-2.0, 2.0]))
         raise ValueError(kd)
